@@ -41,7 +41,7 @@ pub fn base_tag() {
     vcover!(cut == len, "plain-tag");
 }
 
-//# harness: name=c16_tracker prop=C16 tier=thorough unwind=8 timeout=3000 stubs=fmt,hash
+//# harness: name=c16_tracker prop=C16 tier=manual unwind=8 timeout=3000 stubs=fmt,hash
 //# functions: parser::swift_parser::FieldConsumptionTracker::{new,mark_consumed,get_next_available}
 //# bound: one tag with 3 occurrences carrying symbolic distinct position stamps (< 16), any interleaving of 4 get/mark steps chosen by symbolic bits
 pub fn tracker() {
@@ -140,7 +140,7 @@ pub fn normalize_tag() {
     core::mem::forget(r);
 }
 
-//# harness: name=c16_block4_fields prop=C16,C07 tier=thorough unwind=12 timeout=3000 stubs=fmt,hash,eprint
+//# harness: name=c16_block4_fields prop=C16,C07 tier=manual unwind=12 timeout=3000 stubs=fmt,hash,eprint
 //# functions: parser::generated::parse_block4_fields
 //# bound: texts ":20:" + 5 symbolic bytes from the alphabet {':', '\n', '2', '1', 'A'} (at most 2 fields), unwind 12
 pub fn block4_fields() {
